@@ -163,7 +163,10 @@ func runC05(e *Env) error {
 	// (b) zoo
 	zoo := zooValues()
 	names := sortedKeys(zoo)
-	for _, vn := range names {
+	// two passes: the second one meets warm process-wide caches (attribute cache, interned strings) in another order
+	pass2 := append([]string{}, names...)
+	rg.Shuffle(len(pass2), func(i, j int) { pass2[i], pass2[j] = pass2[j], pass2[i] })
+	for _, vn := range append(append([]string{}, names...), pass2...) {
 		for _, tpl := range zooTemplates {
 			if r.Full() {
 				return nil
@@ -214,7 +217,17 @@ func runC05(e *Env) error {
 				data[rg.Intn(len(data))] ^= byte(1 << uint(rg.Intn(8)))
 			}
 		default:
-			data = append([]byte{1}, byte(rg.Intn(256)), byte(rg.Intn(256)), byte(rg.Intn(256)), byte(rg.Intn(256)))
+			// a length prefix at a boundary of 32-bit arithmetic in each of the three length fields
+			edge := pick(rg, [][]byte{{0xff, 0xff, 0xff, 0xff}, {0xfe, 0xff, 0xff, 0xff}, {0xfb, 0xff, 0xff, 0xff}, {0xf0, 0xff, 0xff, 0xff}, {0, 0, 0, 0x80}, {0xff, 0xff, 0xff, 0x7f}, {1, 0, 0, 0}, {0, 0, 1, 0},
+				{byte(rg.Intn(256)), byte(rg.Intn(256)), byte(rg.Intn(256)), byte(rg.Intn(256))}})
+			switch rg.Intn(3) {
+			case 0: // name length
+				data = append([]byte{1}, edge...)
+			case 1: // source length, after a short valid name
+				data = append([]byte{1, 2, 0, 0, 0, 'a', 'b'}, edge...)
+			default: // AST length, after name, source and the two timestamps
+				data = append([]byte{1, 1, 0, 0, 0, 'n', 1, 0, 0, 0, 's', 1, 2, 3, 4, 5, 6, 7, 8, 8, 7, 6, 5, 4, 3, 2, 1}, edge...)
+			}
 			tail := make([]byte, rg.Intn(12))
 			rg.Read(tail)
 			data = append(data, tail...)
